@@ -258,3 +258,14 @@ Proof.
   - repeat constructor; cbn; intuition discriminate.
   - intros H. inversion H as [|? ? Hn _]; subst. apply Hn. now left.
 Qed.
+
+(* A quirk pinned by the model (L2) and admitted by the specification check because the list is
+   self-contradictory: name 1 is H1 in block 7, the largest of chromosome 1, and H2 in block 9,
+   NOT the largest of chromosome 2.  The code keeps the name (it is in a largest block) but with the
+   haplotype of its last tagged line (H2). *)
+Example C14_example_stale_haplotype_quirk :
+  let c := mkCfg true [true; true] false true false false in
+  let es := [(1, 1, 7, 1); (2, 1, 7, 1); (1, 2, 9, 2); (3, 1, 8, 2); (4, 1, 8, 2)] in
+  best_block es 1 = Some 7 /\ best_block es 2 = Some 8 /\
+  assign c es 1 = 2 /\ cands c es 1 = [0; 1; 2].
+Proof. vm_compute. repeat split; reflexivity. Qed.
